@@ -8,7 +8,7 @@ import json, sys
 sys.path.insert(0, 'harness')
 import core
 # regenerate coq/Gen from /repo; a source the translators do not accept falls back to the committed snapshot (see core.regenerate)
-b, fb = core.regenerate(['kernels', 'validators', 'signatures', 'classes', 'projection', 'thermal', 'deviceset', 'functions', 'mfdeviceset', 'storage', 'constraints', 'solve', 'utils', 'loaders'])
+b, fb = core.regenerate(['kernels', 'validators', 'signatures', 'classes', 'projection', 'thermal', 'deviceset', 'functions', 'mfdeviceset', 'storage', 'constraints', 'solve', 'utils', 'loaders', 'basedevice'])
 print('regenerated coq/Gen; fallbacks to snapshot:', fb or 'none', '; broken:', b or 'none')
 core.ensure_makefile()
 m = json.load(open('MANIFEST.json'))
